@@ -349,6 +349,15 @@ Exp_BitBack(e) ==
       fLo == ArithShift(loN, sh)  fHi == ArithShift(loN + span, sh)
   IN  {<<e.a.hz, t[1], t[2], e.a.ovz, g>> :
           t \in HorizontalZoomBits(XBitsOfQuad(q[2]), YBitsOfQuad(q[2]), e.a.hz), g \in fLo..fHi}
+\* several keys at once (one column, the same numbers at different subdivision zooms, repeats): the union, each ID once
+BitBackOne(q, hz, ovz, S, mn, mx) ==
+  LET span == mx - mn
+      loN == mn * Pow2(q[3]) + q[4] * span
+      sh == ovz - 25 - S - q[3]
+      fLo == ArithShift(loN, sh)  fHi == ArithShift(loN + span, sh)
+  IN  {<<hz, t[1], t[2], ovz, g>> : t \in HorizontalZoomBits(XBitsOfQuad(q[2]), YBitsOfQuad(q[2]), hz), g \in fLo..fHi}
+X_BitBackList(e) ==
+  Ok(e) /\ ListIsSet(e.r, UNION {BitBackOne(e.a.keys[i], e.a.hz, e.a.ovz, e.a.S, e.a.mn, e.a.mx) : i \in 1..Len(e.a.keys)})
 X_BitBack(e) ==
   IF e.a.mx < e.a.mn THEN Err(e) /\ e.r = <<>>
   ELSE Ok(e) /\ ListIsSet(e.r, Exp_BitBack(e))
@@ -512,6 +521,7 @@ Explains(e) ==
       [] e.op = "BitFwdList"           -> X_BitFwdList(e)
       [] e.op = "BitFwdFree"           -> X_BitFwdFree(e)
       [] e.op = "BitBack"              -> X_BitBack(e)
+      [] e.op = "BitBackList"          -> X_BitBackList(e)
       [] e.op = "BitFwdHi"             -> X_BitFwdHi(e)
       [] e.op = "BitBackHi"            -> X_BitBackHi(e)
       [] e.op \in {"Line", "LineSp"}   -> X_Line(e)
@@ -591,6 +601,7 @@ Expected(e) ==
     [] e.op = "BitFwdList"           -> Exp_BitFwdList(e)
     [] e.op = "BitFwdFree"           -> [cells |-> {p[2] : p \in AllPairs(e.r)}, lenLo |-> e.a.lenLo, lenHi |-> e.a.lenHi, midLo |-> e.a.midLo, midHi |-> e.a.midHi]
     [] e.op = "BitBack"              -> Exp_BitBack(e)
+    [] e.op = "BitBackList"          -> UNION {BitBackOne(e.a.keys[i], e.a.hz, e.a.ovz, e.a.S, e.a.mn, e.a.mx) : i \in 1..Len(e.a.keys)}
     [] e.op = "BitFwdHi"             -> Exp_BitFwdHi(e)
     [] e.op = "BitBackHi"            -> Exp_BitBackHi(e)
     [] e.op \in {"Line", "LineSp"}   -> [walkEnd |-> WalkEnd(e.a.moves),
